@@ -1675,7 +1675,7 @@ impl Check for C16 {
         st.exhaustive.push("memo: all ordered pairs of print-alike values (14 print classes) x 11 operators x 16 literals on one alpha node, calls f1,f2,f1".to_string());
 
         // ---------------- random histories ----------------
-        let total = cli.n(1_600_000, 32_000_000);
+        let total = cli.n(1_000_000, 32_000_000);
         let per = (total as usize).div_ceil(nthreads);
         shards(cli, nthreads, st, |_shard, rng, st| {
             for i in 0..per {
